@@ -1076,6 +1076,8 @@ impl ByteCompiler<'_> {
         if generator {
             if self.is_async() {
                 self.bytecode.emit_async_generator();
+                // An async generator is always resumed with a value and a resume kind.
+                self.bytecode.emit_pop();
             } else {
                 self.bytecode.emit_generator();
             }
